@@ -22,6 +22,7 @@ run_one() { # patch reverse(0/1) property expect name
   n=$((n+1))
   if [ "$expect" = violation ] && [ $rc -eq 1 ]; then echo "ok   $name ($prop): violation reported: $(echo "$out" | grep -m1 VIOLATION | sed 's/.*replay=//' | xargs basename 2>/dev/null)"
   elif [ "$expect" = pass ] && [ $rc -eq 0 ]; then echo "ok   $name ($prop): still proved"
+  elif [ "$expect" = undecided ] && [ $rc -eq 2 ]; then echo "ok   $name ($prop): refused as undecided: $(echo "$out" | grep -m1 UNDECIDED | cut -c1-120)"
   else echo "FAIL $name ($prop): expected $expect, exit $rc"; echo "$out" | tail -3; fail=1; fi
 }
 for j in selftest/mutants/*.json; do
